@@ -76,22 +76,30 @@ Definition Qround_half_even (q : Q) : Z :=
   | Eq => if Z.even f then f else f + 1
   end%Z.
 
+(* exact comparisons on rationals *)
+Definition Qltb (a b : Q) : bool := match Qcompare a b with Lt => true | _ => false end.
+Definition Qleb (a b : Q) : bool := match Qcompare a b with Gt => false | _ => true end.
+Definition Qeqb (a b : Q) : bool := match Qcompare a b with Eq => true | _ => false end.
+
 Definition is_integral (n : num) : bool := (Qden (Qred (toQ n)) =? 1)%positive.
 
 (* strict_pow (functions.py:242-246) followed by Python's ** on the tower. *)
 Definition n_pow (a b : num) : res num :=
-  if is_flt a || is_flt b then Raise Unmodelled
-  else match b with
-       | NInt n =>
-           if (0 <=? n)%Z then Ok (norm (Qpower (toQ a) n))
-           else match a with
-                | NInt x => if (x =? 0)%Z then Raise ZeroDivisionError
-                            else Ok (nflt (Qpower (toQ a) n))      (* int ** -k is a float *)
-                | _ => Ok (norm (Qpower (toQ a) n))                 (* Fraction ** -k is exact *)
-                end
-       | _ => (* fractional exponent *)
-           if Qlt_le_dec (toQ a) 0 then Raise KaRuntimeError else Raise Unmodelled
-       end.
+  match b with
+  | NInt n =>
+      if is_flt a then
+        (* float ** int: ideal value; 0.0 ** negative raises *)
+        if Qis_zero (toQ a) && (n <? 0)%Z then Raise ZeroDivisionError
+        else Ok (nflt (Qpower (toQ a) n))
+      else if (0 <=? n)%Z then Ok (norm (Qpower (toQ a) n))
+      else match a with
+           | NInt x => if (x =? 0)%Z then Raise ZeroDivisionError
+                       else Ok (nflt (Qpower (toQ a) n))      (* int ** -k is a float *)
+           | _ => Ok (norm (Qpower (toQ a) n))                 (* Fraction ** -k is exact *)
+           end
+  | _ => (* fractional or float exponent: is_fractional / negative base guard, then a float power *)
+      if negb (is_integral b) && Qltb (toQ a) 0 then Raise KaRuntimeError else Raise Unmodelled
+  end.
 
 Definition n_neg (a : num) : res num :=
   match a with
@@ -114,9 +122,6 @@ Definition n_float (a : num) : res num := Ok (nflt (toQ a)).
 
 (* comparisons: intify(operator.lt) etc. — exact across kinds *)
 Definition b2n (b : bool) : num := NInt (if b then 1 else 0).
-Definition Qltb (a b : Q) : bool := match Qcompare a b with Lt => true | _ => false end.
-Definition Qleb (a b : Q) : bool := match Qcompare a b with Gt => false | _ => true end.
-Definition Qeqb (a b : Q) : bool := match Qcompare a b with Eq => true | _ => false end.
 Definition n_lt (a b : num) : res num := Ok (b2n (Qltb (toQ a) (toQ b))).
 Definition n_le (a b : num) : res num := Ok (b2n (Qleb (toQ a) (toQ b))).
 Definition n_eq (a b : num) : res num := Ok (b2n (Qeqb (toQ a) (toQ b))).
